@@ -34,7 +34,8 @@ CHECKS["C08"] = dict(
         "the allocation bound applies to the binary frame format; JSON control messages (which may trigger a channel lookup) get 1 MiB + 4096*len(input)",
         "inputs are at most 1 KiB, so that per-series bookkeeping (about 50 bytes allocated per 4-byte key on the wire) stays inside the 64 KiB constant",
     ],
-    fuzz=[dict(target="FuzzC08Decode", thorough=dict(seconds=240, workers=16))],
+    fuzz=[dict(target="FuzzC08Decode", thorough=dict(seconds=240, workers=16)),
+          dict(target="FuzzC08HTTP", thorough=dict(seconds=240, workers=16))],
     tests=[
         dict(name="TestC08RoundTrip", quick=dict(cases=150000, shards=4), thorough=dict(cases=250000, shards=16, timeout=1500)),
         dict(name="TestC08Dynamic", quick=dict(cases=60000, shards=3), thorough=dict(cases=80000, shards=16, timeout=1500)),
